@@ -6,7 +6,9 @@
 //	set literal            elements as written (no de-duplication, no reordering)
 //	set | set              sorted union without duplicates (ints numerically, strings bytewise)
 //	list | list, list|set  concatenation, a list
-//	xs where(v: p)         the elements for which p holds, same collection kind, order kept
+//	xs where(v: p)         the elements for which p holds, same collection kind, order kept; over a map: the entries
+//	                       for which p holds with v bound to the (key, value) pair, a map
+//	a || b, !a             boolean or / not (the grammar has both: E_LOGIC_OR, E_NOT)
 //	xs flatten(v: e)       e for every element of every inner collection (list result for an outer list, set
 //	                       result for an outer set); over a collection of maps: e for every map, a set-valued
 //	                       e being spliced when the outer collection is a set
@@ -15,6 +17,9 @@
 //	                       per entry in key order with the variable bound to (key, value); otherwise one result
 //	m.attr                 on a (key, value) pair: the key / the value / an attribute of the value
 //	str(x)                 decimal ints, true/false, [a, b], {k: v} with sorted entries
+//	f(args)                a view of the application named f, whatever the name (body on the argument values, own
+//	                       scope); else .count; else the native helper named f = the Go function of that name on
+//	                       arguments of the documented kinds (calls.go refGoFunc); anything else has no value
 package main
 
 import (
@@ -45,7 +50,12 @@ var errUndefined = errors.New("outside the reference semantics")
 type refCtx struct {
 	views map[string]*View
 	steps int
+	// some native helper returned an empty list during this run (fixes/C10-4: that used to end the process)
+	emptyHelperList bool
 }
+
+// set by refRun: the last reference run saw a native helper return an empty list
+var lastRefEmptyHelperList bool
 
 func undefined(f string, a ...interface{}) error {
 	return fmt.Errorf("%w: %s", errUndefined, fmt.Sprintf(f, a...))
@@ -216,7 +226,23 @@ func (rc *refCtx) eval(en *env, e *Expr) (*Val, error) {
 			}
 			return nil, undefined("count of %s", x.K)
 		}
-		return nil, undefined("call %s", e.Name)
+		if strings.HasPrefix(e.Name, ".") {
+			return nil, undefined("call %s", e.Name)
+		}
+		// not a view, not a builtin: a native helper, the Go function it is named after (calls.go)
+		var args []*Val
+		for _, a := range e.A {
+			x, err := rc.eval(en, a)
+			if err != nil {
+				return nil, err
+			}
+			args = append(args, x)
+		}
+		v, err := refGoFunc(e.Name, args)
+		if err == nil && v.K == "l" && len(v.E) == 0 {
+			rc.emptyHelperList = true
+		}
+		return v, err
 	case "un":
 		x, err := rc.eval(en, e.A[0])
 		if err != nil {
@@ -228,6 +254,10 @@ func (rc *refCtx) eval(en *env, e *Expr) (*Val, error) {
 			case "i":
 				return vInt(-x.I), nil
 			case "b":
+				return vBool(!x.B), nil
+			}
+		case "NOT":
+			if x.K == "b" {
 				return vBool(!x.B), nil
 			}
 		case "SINGLE":
@@ -318,6 +348,24 @@ func (rc *refCtx) bin(en *env, e *Expr) (*Val, error) {
 		return nil, err
 	}
 	if e.Op == "WHERE" || e.Op == "FLATTEN" {
+		if l.K == "m" && e.Op == "WHERE" {
+			// where over a map: the entries for which the predicate holds, the variable bound to the (key, value) pair
+			var kept []KV
+			for _, kv := range l.M {
+				pair := vMap([]KV{{"key", vStr(kv.Key)}, {"value", kv.V}})
+				p, err := rc.eval(en.with(e.Sv, pair), e.A[1])
+				if err != nil {
+					return nil, err
+				}
+				if p.K != "b" {
+					return nil, undefined("predicate %s", p.K)
+				}
+				if p.B {
+					kept = append(kept, kv)
+				}
+			}
+			return vMap(kept), nil
+		}
 		if l.K != "l" && l.K != "set" {
 			return nil, undefined("%s over %s", e.Op, l.K)
 		}
@@ -434,6 +482,10 @@ func (rc *refCtx) bin(en *env, e *Expr) (*Val, error) {
 		if bb {
 			return vBool(l.B && r.B), nil
 		}
+	case "OR":
+		if bb {
+			return vBool(l.B || r.B), nil
+		}
 	case "IN", "NOT_IN":
 		if l.K != "s" {
 			break
@@ -513,6 +565,7 @@ func (rc *refCtx) bin(en *env, e *Expr) (*Val, error) {
 // top-level lets in order.
 func refRun(p *Prog) (*Val, []KV, error) {
 	rc := &refCtx{views: map[string]*View{}}
+	defer func() { lastRefEmptyHelperList = rc.emptyHelperList }()
 	var main *View
 	for i := range p.Views {
 		rc.views[p.Views[i].Name] = &p.Views[i]
